@@ -27,6 +27,9 @@ func drawAllocator(prog *simrt.Stream, b Bounds) signal.Allocator {
 		c = b.MaxC
 	}
 	k := kTable[prog.Draw(len(kTable))]
+	if prog.Draw(2) == 1 {
+		k = prog.Draw(b.MaxK + 1) // any capacity, not only the round ones
+	}
 	if k > b.MaxK {
 		k = b.MaxK
 	}
@@ -34,11 +37,15 @@ func drawAllocator(prog *simrt.Stream, b Bounds) signal.Allocator {
 		k = maxTotal / c
 	}
 	l := 0
-	switch prog.Draw(4) {
+	switch prog.Draw(5) {
 	case 0:
 		l = 0
 	case 1:
 		l = k
+	case 2:
+		if k > 0 {
+			l = k - 1
+		}
 	default:
 		l = prog.Draw(k + 1)
 	}
